@@ -44,6 +44,10 @@ def cases(ctx):
     for k in range(len(CAPTURE)):
         for order in (0, 1):
             yield {"op": "capture", "k": k, "order": order, "src": "CAPTURE"}
+    # two DIFFERENT sub-expressions whose invented gate names coincide (a_b & c and a & b_c both spell and_a_b_c): a reader
+    # that recognises "the gate it has built before" by that name computes the wrong function (seeded change C02-r9A)
+    for j in range(48 if ctx.quick else 480):
+        yield {"op": "join", "salt": j, "src": "JOIN"}
 
 
 # a user net that is called like the gate the parser creates for an inner sub-expression
@@ -66,6 +70,29 @@ def capture_program(k, order):
     return {"name": "top", "inputs": ["a", "b", "c"], "outputs": ["y", nm], "wires": [nm], "items": items, "bbtypes": []}, order
 
 
+def join_program(r):
+    ops = ["&", "|", "^", "~^"]
+    o1, o2 = r.choice(ops), r.choice(ops)
+    ID = lambda n: ("id", n)  # noqa: E731
+    shape = r.randrange(4)
+    if shape == 0:      # binary: a_b . c   versus   a . b_c
+        e1, e2, ins = (o1, ID("a_b"), ID("c")), (o1, ID("a"), ID("b_c")), ["a_b", "c", "a", "b_c", "d"]
+    elif shape == 1:    # select / branch of ?:  s_a ? b : c  versus  s ? a_b : c
+        e1, e2, ins = ("?:", ID("s_a"), ID("b"), ID("c")), ("?:", ID("s"), ID("a_b"), ID("c")), ["s_a", "b", "c", "s", "a_b", "d"]
+    elif shape == 2:    # an inverter inside: ~a_b . c  versus a plain net called like the inverter's operand join
+        e1, e2, ins = (o1, ("~", ID("a_b")), ID("c")), (o1, ("~", ID("a")), ID("b_c")), ["a_b", "c", "a", "b_c", "d"]
+    else:               # nested: (a . b_c) inside another operator on both sides
+        e1, e2, ins = (o2, (o1, ID("a_b"), ID("c")), ID("a")), (o2, (o1, ID("a"), ID("b_c")), ID("a")), ["a_b", "c", "a", "b_c", "d"]
+    top = (lambda e: e) if shape == 1 else (lambda e: (o2, e, ID("d")))      # ?: cannot stand below another operator
+    items = [{"k": "assign", "lhs": "y1", "rhs": top(e1)}, {"k": "assign", "lhs": "y2", "rhs": top(e2)}]
+    if r.random() < 0.5:
+        items.reverse()
+    if r.random() < 0.3:   # the same sub-expression a second time as well (sharing it is legitimate, confusing it is not)
+        items.append({"k": "assign", "lhs": "y3", "rhs": e1 if shape == 1 else (r.choice(ops), e1, ID("a"))})
+    outs = [it["lhs"] for it in items]
+    return {"name": "top", "inputs": ins, "outputs": outs, "wires": [], "items": items, "bbtypes": []}
+
+
 def make(ctx, salt):
     r = ctx.rng("C02", salt)
     pool = r.choice(["plain", "plain", "synthetic", "synthetic", "escaped"])
@@ -80,6 +107,9 @@ def run_case(case, ctx):
     if case["op"] == "capture":
         r = ctx.rng("C02cap", case["k"])
         p, order = capture_program(case["k"], case["order"])
+    elif case["op"] == "join":
+        r = ctx.rng("C02join", case["salt"])
+        p = join_program(r)
     else:
         r, p = make(ctx, case["salt"])
     bbs = [cg.BlackBox(t["type"], t["ins"], t["outs"]) for t in p["bbtypes"]]
